@@ -101,6 +101,43 @@ def _any_guard(t, pw, fn):
     return None
 
 
+def _const_chars(node, tree, depth=0):
+    """Constant folding of a set/list/tuple/str of single characters: literals, chr(<int>), + concatenation, list/set/frozenset/
+    tuple(...) wrappers, [chr(i) for i in range(..)] comprehensions, names bound once at module level.  None if not constant."""
+    if depth > 8:
+        return None
+    if isinstance(node, ast.Constant) and isinstance(node.value, str):
+        return set(node.value)
+    if isinstance(node, (ast.List, ast.Tuple, ast.Set)):
+        out = set()
+        for e in node.elts:
+            if isinstance(e, ast.Constant) and isinstance(e.value, str) and len(e.value) == 1:
+                out.add(e.value)
+            elif isinstance(e, ast.Call) and call_name(e) == 'chr' and e.args and isinstance(const(e.args[0]), int):
+                out.add(chr(const(e.args[0])))
+            else:
+                return None
+        return out
+    if isinstance(node, ast.BinOp) and isinstance(node.op, (ast.Add, ast.BitOr)):
+        a, b = _const_chars(node.left, tree, depth + 1), _const_chars(node.right, tree, depth + 1)
+        return None if a is None or b is None else a | b
+    if isinstance(node, ast.Call) and call_name(node) in ('frozenset', 'set', 'list', 'tuple') and len(node.args) == 1:
+        return _const_chars(node.args[0], tree, depth + 1)
+    if isinstance(node, (ast.ListComp, ast.SetComp, ast.GeneratorExp)) and len(node.generators) == 1 and not node.generators[0].ifs:
+        g = node.generators[0]
+        if isinstance(g.target, ast.Name) and isinstance(g.iter, ast.Call) and call_name(g.iter) == 'range' \
+                and all(isinstance(const(a), int) for a in g.iter.args) and isinstance(node.elt, ast.Call) and call_name(node.elt) == 'chr' \
+                and node.elt.args and U(node.elt.args[0]) == g.target.id:
+            return {chr(i) for i in range(*[const(a) for a in g.iter.args])}
+        return None
+    if isinstance(node, ast.Name) and tree is not None:
+        defs = [st.value for st in tree.body if isinstance(st, ast.Assign) and len(st.targets) == 1 and U(st.targets[0]) == node.id]
+        defs += [st.value for st in tree.body if isinstance(st, ast.AnnAssign) and U(st.target) == node.id and st.value is not None]
+        if len(defs) == 1:
+            return _const_chars(defs[0], tree, depth + 1)
+    return None
+
+
 def reject_set(fn):
     """Characters check_valid rejects: set of single characters, extracted from its guard forms."""
     ps = params(fn)
@@ -121,6 +158,10 @@ def reject_set(fn):
                 pass
             elif _any_guard(t, pw, fn) is not None:
                 rej.update(_any_guard(t, pw, fn))
+            elif isinstance(t, ast.UnaryOp) and isinstance(t.op, ast.Not) and isinstance(t.operand, ast.Call) \
+                    and isinstance(t.operand.func, ast.Attribute) and t.operand.func.attr == 'isdisjoint' and len(t.operand.args) == 1 \
+                    and U(t.operand.args[0]) == pw and _const_chars(t.operand.func.value, getattr(fn, '_module_tree', None)) is not None:
+                rej.update(_const_chars(t.operand.func.value, getattr(fn, '_module_tree', None)))
             else:
                 unknown.append(U(t))
         elif isinstance(st, ast.For) and isinstance(st.iter, ast.Call) and call_name(st.iter) == 'range' \
@@ -141,6 +182,30 @@ def reject_set(fn):
                 if isinstance(s, ast.If) and isinstance(s.test, ast.Compare) and U(s.test.left) == st.target.id \
                         and isinstance(s.test.ops[0], ast.In) and s.body and isinstance(s.body[-1], ast.Return):
                     rej.update(v for v in vals if isinstance(v, str) and len(v) == 1)
+    # a final `return <expr>` other than True is one more guard: accepted iff <expr>
+    tree = getattr(fn, '_module_tree', None)
+    rets = [st for st in fn.body if isinstance(st, ast.Return)]
+    if rets and not (const(rets[-1].value) is True):
+        v = rets[-1].value
+        got = None
+        if isinstance(v, ast.Call) and isinstance(v.func, ast.Attribute) and v.func.attr == 'isdisjoint' and len(v.args) == 1:
+            if U(v.args[0]) == pw:
+                got = _const_chars(v.func.value, tree)
+            elif U(v.func.value) in ('set(%s)' % pw, 'frozenset(%s)' % pw):
+                got = _const_chars(v.args[0], tree)
+        elif isinstance(v, ast.UnaryOp) and isinstance(v.op, ast.Not):
+            g = _any_guard(v.operand, pw, fn)
+            if g is not None:
+                got = g
+            elif isinstance(v.operand, ast.BinOp) and isinstance(v.operand.op, ast.BitAnd):
+                sides = [v.operand.left, v.operand.right]
+                other = [x for x in sides if U(x) not in ('set(%s)' % pw, 'frozenset(%s)' % pw)]
+                if len(other) == 1:
+                    got = _const_chars(other[0], tree)
+        if got is None:
+            unknown.append('return ' + U(v)[:60])
+        else:
+            rej |= got
     return rej, unknown
 
 
